@@ -3161,5 +3161,181 @@ example : (NatReq.run true (fun x => x) witnessCfgs [] ⟨[49], [112], 7, authIn
 example : natFlood true (fun x => x) witnessCfgs [] (List.replicate 50 ⟨[49], [112], 7, authInput [115] 7, [109], false⟩) = [] := by
   decide
 
+/-! ## §12 allow lists as a class: order, multiplicity, "", "*", exact entries; the list a proxy was registered with is
+       the list its visitors are judged by -/
+
+/-- THE meaning of a list: two lists with the same entries — in any order, each any number of times — allow exactly
+    the same users (`allowedB` is `slices.Contains ‖ slices.Contains "*"`, the code's test) -/
+theorem allowed_perm_dedup (a b : List Str) (h : ∀ x, x ∈ a ↔ x ∈ b) (user : Str) : allowedB a user = allowedB b user := by
+  apply Bool.eq_iff_iff.mpr
+  rw [allowedB_iff, allowedB_iff]
+  unfold UserAllowed
+  rw [h user, h [Str.star]]
+
+/-- any permutation of the list -/
+theorem allowed_perm (a b : List Str) (h : a.Perm b) (user : Str) : allowedB a user = allowedB b user :=
+  allowed_perm_dedup a b (fun _ => h.mem_iff) user
+
+/-- a canonical form an implementation may store instead of the list: sorted, repeated entries removed
+    (`slices.Sort` + `slices.Compact`) -/
+def canonAllow (a : List Str) : List Str := (a.mergeSort (fun x y => decide (x ≤ y))).eraseDups
+
+theorem mem_canonAllow (a : List Str) (x : Str) : x ∈ canonAllow a ↔ x ∈ a := by
+  unfold canonAllow
+  rw [List.mem_eraseDups, List.mem_mergeSort]
+
+/-- storing the canonical form changes nothing for any visitor -/
+theorem allowed_canon (a : List Str) (user : Str) : allowedB (canonAllow a) user = allowedB a user :=
+  allowed_perm_dedup _ _ (mem_canonAllow a) user
+
+/-- repeating entries, or dropping repetitions, changes nothing -/
+theorem allowed_append_self (a : List Str) (x user : Str) (hx : x ∈ a) : allowedB (x :: a) user = allowedB a user :=
+  allowed_perm_dedup _ _ (fun y => by
+    constructor
+    · intro hy; rcases List.mem_cons.mp hy with e | e
+      · exact e ▸ hx
+      · exact e
+    · exact List.mem_cons_of_mem _) user
+
+/-- a visitor without a user (no run id, or a client that logged in without `user`) gets in only if "" is listed
+    or the list has "*" -/
+theorem empty_user_allowed_iff (a : List Str) : allowedB a [] = true ↔ ([] : Str) ∈ a ∨ [Str.star] ∈ a :=
+  allowedB_iff a []
+
+/-- entries are compared byte for byte: without "*" an allowed user IS an entry (no case folding, no trimming,
+    no prefix / pattern matching) -/
+theorem allowed_exact (a : List Str) (user : Str) (h : allowedB a user = true) (hs : [Str.star] ∉ a) : user ∈ a := by
+  rcases (allowedB_iff a user).mp h with h | h
+  · exact h
+  · exact absurd h hs
+
+theorem unlisted_refused (a : List Str) (user : Str) (h : user ∉ a) (hs : [Str.star] ∉ a) : allowedB a user = false := by
+  cases hb : allowedB a user
+  · rfl
+  · exact absurd (allowed_exact a user hb hs) h
+
+/-- "*" anywhere in the list admits every user, also "" -/
+theorem star_anywhere (a b : List Str) (user : Str) : allowedB (a ++ [Str.star] :: b) user = true :=
+  (allowedB_iff _ _).mpr (.inr (List.mem_append_right _ List.mem_cons_self))
+
+/-- the answer of NewConn depends on the list only through its set of entries -/
+theorem newConn_perm_dedup (H : Str → Str) (ls : List (Str × Listener)) (name : Str) (l : Listener) (a b : List Str)
+    (h : ∀ x, x ∈ a ↔ x ∈ b) (ts : Int) (sign user : Str) (conn : Nat) :
+    (newConn H (aput ls name { l with allow := a }) name ts sign user conn).2 =
+      (newConn H (aput ls name { l with allow := b }) name ts sign user conn).2 := by
+  simp only [newConn, aget_aput, if_true, allowed_perm_dedup a b h user]
+  split
+  · rfl
+  · split
+    · rfl
+    · split
+      · rfl
+      · split <;> rfl
+
+/-- … and so does HandleVisitor's (both branches, with and without the repair) -/
+theorem natVisit_perm_dedup (fixed : Bool) (H : Str → Str) (cfgs : List (Str × NatCfg)) (sess : List (Str × NatSess))
+    (c : NatCfg) (a b : List Str) (h : ∀ x, x ∈ a ↔ x ∈ b) (sid name : Str) (ts : Int) (sign user : Str) (pre : Bool) :
+    (natVisit fixed H (aput cfgs name { c with allow := a }) sess sid name ts sign user pre).2 =
+      (natVisit fixed H (aput cfgs name { c with allow := b }) sess sid name ts sign user pre).2 := by
+  simp only [natVisit, aget_aput, if_true, allowed_perm_dedup a b h user]
+  cases pre
+  · simp only [Bool.false_eq_true, if_false]
+    split
+    · rfl
+    · split <;> rfl
+  · simp only [if_true]
+
+/-- Manager.Listen stores the key and the list it was given, with a fresh empty open listener -/
+theorem listen_stores (fixed : Bool) (H : Str → Str) (s : State) (name sk : Str) (allow : List Str)
+    (hok : (step fixed H s (.listen name sk allow)).2 = .ok) :
+    ∃ l, aget (step fixed H s (.listen name sk allow)).1.listeners name = some l ∧
+      l.sk = sk ∧ l.allow = allow ∧ l.queue = [] ∧ l.closed = false ∧ l.lid = s.nextId := by
+  simp only [step, doListen] at hok ⊢
+  split at hok
+  · cases hok
+  · next hfree => simp [hfree, aget_aput]
+
+/-- RegisterProxy → Run stores the configured list, or [owner's user] when none is configured (all three kinds) -/
+theorem register_stores (fixed : Bool) (H : Str → Str) (s : State) (rid : Str) (kind : Kind) (name sk u : Str)
+    (cfgAllow : List Str) (hu : aget s.ctls rid = some u)
+    (hok : (step fixed H s (.register rid kind name sk cfgAllow)).2 = .ok) :
+    (kind ≠ .xtcp → ∃ l, aget (step fixed H s (.register rid kind name sk cfgAllow)).1.listeners name = some l ∧
+        l.sk = sk ∧ l.allow = effectiveAllow cfgAllow u ∧ l.queue = [] ∧ l.closed = false ∧ l.lid = s.nextId) ∧
+    (kind = .xtcp → ∃ c, aget (step fixed H s (.register rid kind name sk cfgAllow)).1.natCfgs name = some c ∧
+        c.sk = sk ∧ c.allow = effectiveAllow cfgAllow u ∧ c.chan = s.nextId) := by
+  simp only [step, hu] at hok ⊢
+  split at hok
+  · cases hok
+  · next hfree =>
+    simp only [hfree]
+    simp only [Bool.or_eq_true, Option.isSome_iff_ne_none, not_or, ne_eq, Decidable.not_not] at hfree
+    cases kind <;> simp [doListen, doNatListen, hfree.1, hfree.2, aget_aput]
+
+/-- a key-holding visitor against a fresh open listener with list `allow`: handed over iff the user is allowed -/
+theorem fresh_conn_iff (H : Str → Str) (ls : List (Str × Listener)) (name : Str) (l : Listener) (ts : Int) (user : Str)
+    (conn : Nat) (hl : aget ls name = some l) (hq : l.queue = []) (hc : l.closed = false) :
+    (newConn H ls name ts (authKey H l.sk ts) user conn).2 = .queued l.lid ↔ UserAllowed l.allow user := by
+  rw [← allowedB_iff]
+  simp only [newConn, hl, ne_eq, not_true_eq_false, if_false, hc, hq, List.length_nil, acceptCap, Bool.false_eq_true]
+  cases allowedB l.allow user <;> simp
+
+/-- Listen, then NewConn by a key holder: handed to that listener iff the user is in the list GIVEN TO Listen
+    (or that list has "*") — for every list: repeated entries, any order, "", "*" anywhere -/
+theorem listen_then_conn_iff (fixed : Bool) (H : Str → Str) (s : State) (name sk : Str) (allow : List Str) (ts : Int)
+    (user : Str) (conn : Nat) (hok : (step fixed H s (.listen name sk allow)).2 = .ok) :
+    (newConn H (step fixed H s (.listen name sk allow)).1.listeners name ts (authKey H sk ts) user conn).2
+        = .queued s.nextId ↔ UserAllowed allow user := by
+  obtain ⟨l, hl, hsk, hal, hq, hc, hlid⟩ := listen_stores fixed H s name sk allow hok
+  have := fresh_conn_iff H _ name l ts user conn hl hq hc
+  rw [hsk, hal, hlid] at this
+  exact this
+
+/-- NewProxy (stcp / sudp) with any configured list, then NewVisitorConn by a key holder whose run id stands for
+    user `v` ("" for no run id): handed to the new proxy iff `v` is in the configured list — the owner's user when
+    none was configured — or that list has "*" -/
+theorem register_then_visit_iff (fixed : Bool) (H : Str → Str) (s : State) (rid : Str) (kind : Kind) (name sk u : Str)
+    (cfgAllow : List Str) (hk : kind ≠ .xtcp) (hu : aget s.ctls rid = some u)
+    (hok : (step fixed H s (.register rid kind name sk cfgAllow)).2 = .ok)
+    (ts : Int) (vrid v : Str) (conn : Nat) (hv : resolveUser s.ctls vrid = .ok v) :
+    (step fixed H (step fixed H s (.register rid kind name sk cfgAllow)).1
+        (.visitorConn name ts (authKey H sk ts) vrid conn)).2 = .conn (.queued s.nextId)
+      ↔ UserAllowed (effectiveAllow cfgAllow u) v := by
+  obtain ⟨l, hl, hsk, hal, hq, hc, hlid⟩ := (register_stores fixed H s rid kind name sk u cfgAllow hu hok).1 hk
+  have hctl : (step fixed H s (.register rid kind name sk cfgAllow)).1.ctls = s.ctls := by
+    simp only [step, hu]
+    split
+    · rfl
+    · cases kind <;> simp only [doListen, doNatListen] <;> split <;> rfl
+  have := fresh_conn_iff H _ name l ts v conn hl hq hc
+  rw [hsk, hal, hlid] at this
+  rw [← this]
+  generalize (step fixed H s (.register rid kind name sk cfgAllow)).1 = s' at hctl ⊢
+  simp only [step, hctl, hv]
+  constructor
+  · intro h; injection h with h
+  · intro h; rw [h]
+
+/-- NewProxy (xtcp) / ListenClient with any list, then the pre-check and — with the repair — the request proper of a
+    key holder: positive iff the user is in that list or the list has "*" -/
+theorem natListen_then_visit_iff (H : Str → Str) (cfgs : List (Str × NatCfg)) (sess : List (Str × NatSess))
+    (c : NatCfg) (sid name : Str) (ts : Int) (user : Str) (hcfg : aget cfgs name = some c) :
+    ((natVisit true H cfgs sess sid name ts (authKey H c.sk ts) user false).2 = .granted c.chan ↔ UserAllowed c.allow user) ∧
+    (∀ fixed sign, (natVisit fixed H cfgs sess sid name ts sign user true).2 = .preOk ↔ UserAllowed c.allow user) := by
+  refine ⟨?_, fun fixed sign => ?_⟩ <;> rw [← allowedB_iff] <;>
+    simp only [natVisit, hcfg, Bool.false_eq_true, if_false, if_true, ne_eq, not_true_eq_false, Bool.true_and] <;>
+    cases allowedB c.allow user <;> simp
+
+-- ["bob","carol","bob"]: nobody ("") is refused, bob and carol get in, "Bob" / "bob " do not; the same for [carol, bob]
+example : allowedB [[98, 111, 98], [99, 97, 114, 111, 108], [98, 111, 98]] [] = false := by decide
+example : allowedB [[98, 111, 98], [99, 97, 114, 111, 108], [98, 111, 98]] [98, 111, 98] = true := by decide
+example : allowedB [[98, 111, 98], [99, 97, 114, 111, 108], [98, 111, 98]] [66, 111, 98] = false := by decide
+example : allowedB [[98, 111, 98], [99, 97, 114, 111, 108], [98, 111, 98]] [98, 111, 98, 32] = false := by decide
+example : ([] : Str) ∉ canonAllow [[98, 111, 98], [99, 97, 114, 111, 108], [98, 111, 98]] ∧
+    [98, 111, 98] ∈ canonAllow [[98, 111, 98], [99, 97, 114, 111, 108], [98, 111, 98]] := by
+  rw [mem_canonAllow, mem_canonAllow]; decide
+-- a list with one more entry "" is another list: it admits visitors without a user
+example : allowedB [[98, 111, 98], [99, 97, 114, 111, 108], []] [] = true := by decide
+example : (step false exH {} (.listen [112] [115] [[98], [99], [98]])).2 = .ok := by decide
+
 end C08
 end Frp
